@@ -1394,6 +1394,14 @@ func foreignCase(c *core.Ctx, i int) {
 	if star {
 		flags = append(flags, "star")
 	}
+	nameMode := 0
+	if len(ns) >= 2 && g.Chance(0.25) {
+		nameMode = 1
+		if split < len(ns) && g.Chance(0.6) {
+			nameMode = 2
+		}
+		flags = append(flags, "repeated-tree-names")
+	}
 	writeTrees := func(from, to int, withTranslate bool) {
 		b.WriteString(kwCase(kc, "BEGIN") + " " + kwCase(kc, "TREES") + ";\n")
 		if withTranslate {
@@ -1408,7 +1416,16 @@ func foreignCase(c *core.Ctx, i int) {
 			if star && j == from {
 				b.WriteString("* ")
 			}
-			b.WriteString("t" + strconv.Itoa(j+1) + " = ")
+			// tree names: distinct, or REPEATED (every tree named alike; or numbered from 0 again in each
+			// TREES block, as when documents written by gotree — tree0, tree1, … — are merged)
+			switch nameMode {
+			case 1:
+				b.WriteString("t = ")
+			case 2:
+				b.WriteString("tree" + strconv.Itoa(j-from) + " = ")
+			default:
+				b.WriteString("t" + strconv.Itoa(j+1) + " = ")
+			}
 			if g.Chance(0.4) {
 				b.WriteString(g.Pick([]string{"[&R] ", "[&U] ", "[&W 0.5] "}))
 				flags = append(flags, "rooting-comment")
